@@ -1,6 +1,7 @@
 package leveldbstorage
 
 import (
+	"bytes"
 	"context"
 	"sync"
 
@@ -170,8 +171,11 @@ func (st *PrefixStorage) NewBatch() *PrefixStorageBatch {
 }
 
 func (st *PrefixStorage) Batch(batch *PrefixStorageBatch, opt *leveldbOpt.WriteOptions) error {
-	if k := st.key(util.UUID().Bytes()); k == nil {
+	switch prefix := st.Prefix(); {
+	case prefix == nil:
 		return storage.ErrClosed.WithStack()
+	case !bytes.Equal(prefix, batch.prefix):
+		return errors.Errorf("batch; batch of the other prefix")
 	}
 
 	return st.Storage.Batch(batch.Batch, opt)
@@ -186,8 +190,12 @@ func (st *PrefixStorage) BatchFunc(
 	func(func(func() error) error) error,
 	func(),
 ) {
+	// NOTE prefix of closed storage is nil; new batch after closed writes the
+	// keys without prefix.
+	prefix := st.Prefix()
+
 	add, done, cancel := st.Storage.BatchFuncWithNewBatch(ctx, batchsize, wo, func() LeveldbBatch {
-		return st.NewBatch()
+		return newPrefixStorageBatch(prefix)
 	})
 
 	// NOTE the batch of closed storage has nil prefix; it covers all the prefixes
